@@ -233,7 +233,15 @@ def child_cache(case):
                 ops.append(('truncate', t, len(src)))
                 kinds.add('truncate')
                 bump('cache_truncates')
-            elif r < 0.35 and len(src) < maxlen:
+            elif r < 0.31:
+                # initialise again ("in any order"): any length the source can serve
+                n = rng.choice((1, 3, 9, 36, rng.randrange(1, len(src) + 1)))
+                n = max(1, min(n, len(src)))
+                await mc.initialize(n)
+                ops.append(('init', n, len(src)))
+                kinds.add('reinit')
+                bump('cache_reinitialisations')
+            elif r < 0.38 and len(src) < maxlen:
                 add = rng.randrange(1, maxlen - len(src) + 1)
                 src.extend(mk_hashes(add, rng.randrange(1 << 30)))
                 ops.append(('grow', len(src)))
@@ -307,10 +315,11 @@ def run(tier, seed, replay=None):
     rep.floor('cache_queries_compared', rep.counters['cache_queries_compared'], 2000)
     rep.floor('cache_truncates', rep.counters['cache_truncates'], 200)
     rep.floor('cache_extends', rep.counters['cache_extends'], 200)
+    rep.floor('cache_reinitialisations', rep.counters['cache_reinitialisations'], 100)
     return rep.finish(
         rule=f'every list length 1..{maxn} x every index (classic+TSC branch, root, root_from_proof, level, '
              f'branch_and_root_from_level for every depth) vs an independent recursive definition; branch_length/'
-             f'tree_depth at 2^k-1,2^k,2^k+1 for k<=62; {nchild * nseq} random MerkleCache initialise/extend/truncate/'
+             f'tree_depth at 2^k-1,2^k,2^k+1 for k<=62; {nchild * nseq} random MerkleCache initialise/re-initialise/extend/truncate/'
              'query sequences (source rewritten after every truncation, lengths<=600) vs from-scratch. distinct = '
              'list lengths + boundary values + cache sequences containing both a truncation and an extension',
         assumptions=['hashlib SHA-256', 'exhaustive only up to the stated length bound'])
